@@ -1,8 +1,10 @@
 package main
 
 import (
+	"fmt"
 	"go/token"
 	"go/types"
+	"os"
 	"strings"
 
 	"golang.org/x/tools/go/ssa"
@@ -12,10 +14,10 @@ func init() {
 	register(&propDef{
 		ID:      "C01",
 		Level:   "other",
-		Explain: "Structure of the pipeline registry reply -> tag filter -> health filter -> route commands -> table, decided on every path: (W1) every value sent on the updates channel is configBuilder(healthFilter(tagFilter(reply of Health().State of this iteration))); the filter functions are discovered by this role; (W2) the watch loop carries no state across snapshots except the query index (an instance that became unhealthy cannot survive into a later text); (W3) every cycle of the Consul watch loops is paced: the blocking query's WaitIndex is the loop-carried index advanced from the reply (or the poll branch sleeps), error edges sleep; (F1) in the health filter the append of an instance is, within one outer iteration, unreachable from the true edge of each exclusion (serfHealth critical, _node_maintenance, _service_maintenance:<id> critical on the same node), is dominated by isServiceCheck, by 'passing != 0', and no edge into it carries 'strict and total != passing'; (F2) passing is counted only under same node, same service id and accepted status, total under same node and same service id; (F3) the tag filter keeps serfHealth, _node_maintenance and _service_maintenance* checks without the tag test; (K1) the instance key written by the config builder and the key looked up per catalog entry have the same shape Node \".\" ServiceID; (M1) command lists collected from goroutines / map iteration are sorted before they are joined into the compared text; (B1) the updater writes the service text before the manual text into the buffer it parses, both texts come only from the two registry channels, and the buffer is Reset first. (B2) every update received from either registry channel reaches the rebuild of the candidate text — from the select, the loop head is not reachable without passing the buffer Reset; Not decided: Consul's own semantics, quiescence, and the 'if and only if' over registry histories beyond this per-snapshot structure.",
+		Explain: "Structure of the pipeline registry reply -> tag filter -> health filter -> route commands -> table, decided on every path. Every site is found by its ROLE (what it calls, reads, stores, returns) inside a region (an entry function, the helpers it calls, its closures), not by the name or the shape of the function that contains it today. (W1) every text sent on the chan string parameter of the health watcher (the function that queries Health().State) derives - through helpers, parameters, merges, appends, slices.* - from the list of checks of a Health().State reply, passing on EVERY path a stage that looks at HealthCheck.ServiceTags (tag filter) and a stage that looks at HealthCheck.Status (health filter) before it enters the builder (the function that turns the list into the text; a filter may also be the only use of the builder's parameter); nothing else (constants, fields, other lists) flows in. (W2) a value carried across the iterations of a loop that issues the query is the index / the query options, or it influences neither what is sent nor whether it is sent; the only conditions that decide whether the text of a snapshot is sent are verdicts on the error of the query. (W3) every cycle of the Consul watch loops is paced: on every path from the loop head to a query the WaitIndex of its options is set to the loop-carried index advanced from the reply (the options may be built by a helper, the query may be wrapped by helpers that take the index as a parameter) or the path sleeps (poll mode); the edge on which the query's error is known (nil test or the verdict of a helper) sleeps before the next round. (F1) in the health filter (the stage that looks at Status, with the helpers it calls): the edge that completes each exclusion (serfHealth critical, _node_maintenance, _service_maintenance:<id> critical, on the same node) does not lead to the append of the instance within the current iteration - if the edge is in a helper, for the values the helper returns from there; exploring the filter under the ASSUMPTION 'the accepted-status counter is 0', 'strict mode and total != passing', 'the instance's ServiceID is empty / its CheckID is serfHealth, _node_maintenance, _service_maintenance:x' (branches decided by the assumption are pruned, boolean helpers are evaluated under it) never reaches the append. (F2) the accepted-status counter is incremented only under same node, same service id and a test of the check's Status against the accepted list; the total counter under same node and same service id. (F3) exploring the tag filter under the assumption 'CheckID is serfHealth / _node_maintenance / _service_maintenance:x' every path of an iteration appends the check (slices.DeleteFunc: the drop function returns false). (K1) the key under which the builder records passing instances (map update keyed by health check fields) and the key looked up per catalog entry (map lookup keyed by catalog service fields, same map type) have the same shape Node \".\" ServiceID, key helpers looked through. (M1) the list joined into the text the builder returns is sorted on every path to the join (in place, by a sorting helper, or before the call of a rendering helper). (M2) goroutines started by the builder do not write variables they share unless they hold a mutex. (B1) the updater (the function of package main that selects over WatchServices() and WatchManual()) and its helpers: the buffer parsed by route.NewTable is reset (or freshly made from a concatenation), then receives the service text, then the manual text, and nothing else that is not a constant; texts are traced to the channel they were received from through parameters, variables, struct fields. (B2) from the select, the loop head is not reachable without (re)building the candidate text. Not decided: Consul's own semantics, quiescence, and the 'if and only if' over registry histories beyond this per-snapshot structure.",
 		Run:     runC01,
-		Trusted: []string{"hashicorp/consul/api returns the health state / catalog of the agent's datacenter; blocking queries honour WaitIndex", "sort.Sort orders the slice"},
-		Mutants: []mutant{
+		Trusted: []string{"hashicorp/consul/api returns the health state / catalog of the agent's datacenter; blocking queries honour WaitIndex", "sort.Sort / slices.Sort* order the slice", "slices.DeleteFunc removes exactly the elements for which the function returns true"},
+		Mutants: append([]mutant{
 			{Name: "manual update ignored while the service config is empty", File: "main.go", Old: "\t\t\tcase mancfg = <-man:\n\t\t\t}", New: "\t\t\tcase mancfg = <-man:\n\t\t\t\tif svccfg == \"\" {\n\t\t\t\t\tcontinue\n\t\t\t\t}\n\t\t\t}", Expect: "C01.B2"},
 
 			{Name: "health filter bypassed", File: "registry/consul/service.go", Old: "updates <- w.makeConfig(passing)", New: "_ = passing\n\t\tupdates <- w.makeConfig(prefixedChecks)", Expect: "C01.W1"},
@@ -37,817 +39,879 @@ func init() {
 			{Name: "manual text before service text", File: "main.go", Old: "\t\t\ttableBuffer.WriteString(svccfg)\n\t\t\ttableBuffer.WriteString(\"\\n\")\n\t\t\ttableBuffer.WriteString(mancfg)", New: "\t\t\ttableBuffer.WriteString(mancfg)\n\t\t\ttableBuffer.WriteString(\"\\n\")\n\t\t\ttableBuffer.WriteString(svccfg)", Expect: "C01.B1"},
 			{Name: "buffer not reset", File: "main.go", Old: "\t\t\ttableBuffer.Reset()\n", New: "", Expect: "C01.B1"},
 			{Name: "benign: exclusion tests in switch form", File: "registry/consul/passing.go", Old: "\t\t\t\tif c.CheckID == \"_node_maintenance\" {", New: "\t\t\t\tif id := c.CheckID; id == \"_node_maintenance\" {", Expect: ""},
-		},
+		}, c01MoreMutants...),
 	})
 }
 
 const apiPkg = "github.com/hashicorp/consul/api"
 
-func isHealthField(v ssa.Value, field string) (ssa.Value, bool) {
-	return fieldOf(v, "api.HealthCheck", field)
-}
+const consulPkg = "registry/consul"
 
 func runC01(c *Ctx) {
-	watch := c.method("registry/consul", "ServiceMonitor", "Watch")
-	if !c.need("C01.W1", watch, "consul.ServiceMonitor.Watch") {
+	watch := c01WatchEntry(c)
+	if !c.need("C01.W1", watch, "the health watcher (a function of registry/consul with a chan string parameter that queries Health().State)") {
 		return
 	}
-	// ---- W1: the send chain
-	var builder, healthFilter, tagFilter *ssa.Function
-	nSend := 0
-	eachInstr(watch, func(i ssa.Instruction) {
-		snd, ok := i.(*ssa.Send)
-		if !ok {
-			return
-		}
-		nSend++
-		chain := []*ssa.Call{}
-		v := snd.X
-		for depth := 0; depth < 4; depth++ {
-			for {
-				if ct, isCT := v.(*ssa.ChangeType); isCT {
-					v = ct.X
-					continue
-				}
-				break
-			}
-			call, ok := v.(*ssa.Call)
-			if !ok {
-				break
-			}
-			chain = append(chain, call)
-			// next: the argument that is itself a call (or extract of one) producing health checks
-			var next ssa.Value
-			for _, a := range call.Call.Args {
-				if strings.Contains(typeStr(a.Type()), apiPkg+".HealthCheck") {
-					next = a
-				}
-			}
-			if next == nil {
-				break
-			}
-			v = next
-			if e, ok := v.(*ssa.Extract); ok {
-				v = e.Tuple
-			}
-		}
-		ok = len(chain) == 4
-		if ok {
-			b, h, t, st := chain[0], chain[1], chain[2], chain[3]
-			ok = b.Call.StaticCallee() != nil && h.Call.StaticCallee() != nil && t.Call.StaticCallee() != nil &&
-				isRepoFn(b.Call.StaticCallee()) && isRepoFn(h.Call.StaticCallee()) && isRepoFn(t.Call.StaticCallee()) &&
-				calleeName(&st.Call) == "(*"+apiPkg+".Health).State"
-			if ok {
-				builder, healthFilter, tagFilter = b.Call.StaticCallee(), h.Call.StaticCallee(), t.Call.StaticCallee()
-				// all in the same iteration: no phi in between (checked by construction: direct call operands)
-			}
-		}
-		c.check("C01.W1", "(*consul.ServiceMonitor).Watch|sent config = builder(healthFilter(tagFilter(Health().State reply)))", snd.Pos(), ok,
-			"the text sent to the table updater must be built from the health filter applied to the tag filter applied to this iteration's Health().State reply; bypassing a stage publishes unhealthy, maintenance-mode or untagged instances")
-	})
-	c.atLeast("C01.W1", "sends on the updates channel", nSend, 1)
-	if builder == nil {
-		return
-	}
-
-	// ---- W2: loop-carried state
-	for _, l := range condLessLoops(watch) {
-		for _, in := range l.Head.Instrs {
-			phi, ok := in.(*ssa.Phi)
-			if !ok {
-				continue
-			}
-			ts := typeStr(phi.Type())
-			okT := ts == "uint64" || ts == "*"+apiPkg+".QueryOptions"
-			c.check("C01.W2", "(*consul.ServiceMonitor).Watch|loop-carried "+phi.Comment, phi.Pos(), okT,
-				"the watch loop may carry only the query index across iterations; carrying "+ts+" lets state from an earlier registry snapshot leak into a later configuration (an instance that became unhealthy could survive)")
-		}
-	}
+	p := newC01Pipe(c, watch)
+	p.runW1()
+	p.runW2()
 
 	// ---- W3: pacing of the consul loops
-	runLoopPacingWith(c, "C01.W3", []string{"registry/consul"}, 2, consulQueryPaced)
-	runConsulWatchLoops(c, "C01.W3", []string{"registry/consul"}, 2)
+	runC01Pacing(c)
 
-	runC01F1F2(c, healthFilter)
-	runC01F3(c, tagFilter)
-	runC01K1(c, builder)
-	runC01M1(c, builder)
+	hfs, tfs := p.healthFilters, p.tagFilters
+	if len(hfs) == 0 || len(tfs) == 0 {
+		// the send chain does not show them (W1 has reported that): look for the roles in the package
+		for _, f := range c.fnsWhere(consulPkg, func(f *ssa.Function) bool { return f.Parent() == nil && c01IsStage(f) }) {
+			r := p.intrinsic(f)
+			if len(hfs) == 0 && r&c01RoleHealth != 0 {
+				hfs = append(hfs, f)
+			}
+			if len(tfs) == 0 && r&c01RoleTag != 0 && r&c01RoleHealth == 0 {
+				tfs = append(tfs, f)
+			}
+		}
+	}
+	if len(hfs) == 0 {
+		c.undecided("C01.F1", "anchor|health filter (by role)", "no function of registry/consul takes and returns a list of health checks and looks at their Status")
+	}
+	for _, hf := range hfs {
+		runC01Health(c, hf)
+	}
+	if len(tfs) == 0 {
+		c.undecided("C01.F3", "anchor|tag filter (by role)", "no function of registry/consul takes and returns a list of health checks and looks at their ServiceTags")
+	}
+	for _, tf := range tfs {
+		runC01Tag(c, tf)
+	}
+	if len(p.builders) == 0 {
+		c.undecided("C01.K1", "anchor|config builder (by role)", "no function turns the filtered health checks into the text sent to the updater")
+	}
+	for _, b := range p.builders {
+		runC01K1(c, b)
+		runC01M1(c, b)
+	}
 	runC01B1(c)
+	c01Debug(c)
 }
 
-// consulQueryPaced: a direct api Health().State / KV().List call paces the loop when every QueryOptions
-// value it can receive either carries WaitIndex = a loop-carried index advanced from the reply's meta,
-// or is built in a block that sleeps (poll mode).
-func consulQueryPaced(i ssa.Instruction, l *loop) bool {
+func c01Debug(c *Ctx) {
+	if os.Getenv("C01_DEBUG") == "" {
+		return
+	}
+	for _, o := range c.Obs {
+		fmt.Fprintf(os.Stderr, "  %-10s %-8s %s @%s\n", o.Status, o.Rule, o.Construct, o.Pos)
+	}
+}
+
+// ---- anchors by role ----------------------------------------------------------------------------------------------
+
+func c01IsStateInstr(i ssa.Instruction) bool {
 	call, ok := i.(*ssa.Call)
-	if !ok {
+	return ok && calleeName(&call.Call) == "(*"+apiPkg+".Health).State"
+}
+
+func c01IsTextChan(t types.Type) bool {
+	ch, ok := t.Underlying().(*types.Chan)
+	if !ok || ch.Dir() == types.RecvOnly {
 		return false
 	}
-	n := calleeName(&call.Call)
-	if n != "(*"+apiPkg+".Health).State" && n != "(*"+apiPkg+".KV).List" && n != "(*"+apiPkg+".KV).Get" {
-		return false
-	}
-	var q ssa.Value
-	for _, a := range call.Call.Args {
-		if typeStr(a.Type()) == "*"+apiPkg+".QueryOptions" {
-			q = a
-		}
-	}
-	if q == nil {
-		return false
-	}
-	defs := defsOf(q)
-	if len(defs) == 0 {
-		return false
-	}
-	for _, d := range defs {
-		a, ok := d.Val.(*ssa.Alloc)
-		if !ok {
+	b, ok := ch.Elem().Underlying().(*types.Basic)
+	return ok && b.Kind() == types.String
+}
+
+// c01WatchEntry: the function that watches the health state: it has a chan string parameter and (itself or through
+// helpers) queries Health().State. ServiceMonitor.Watch if that plays the role, otherwise the outermost such function.
+func c01WatchEntry(c *Ctx) *ssa.Function {
+	isCand := func(f *ssa.Function) bool {
+		if f.Parent() != nil || len(f.Blocks) == 0 {
 			return false
 		}
-		okDef := false
-		for _, st := range fieldStores(a)["WaitIndex"] {
-			if phi, ok := st.Val.(*ssa.Phi); ok && phi.Block() == l.Head {
-				for k, e := range phi.Edges {
-					if l.Body[l.Head.Preds[k]] && derives(e, func(v ssa.Value) bool { return v == call }) {
-						okDef = true
-					}
+		has := false
+		for _, p := range f.Params {
+			if c01IsTextChan(p.Type()) {
+				has = true
+			}
+		}
+		return has && mayExec(f, c01IsStateInstr, 0)
+	}
+	if f := c.method(consulPkg, "ServiceMonitor", "Watch"); f != nil && isCand(f) {
+		return f
+	}
+	cands := c.fnsWhere(consulPkg, isCand)
+	for _, f := range cands {
+		calledByCand := false
+		for _, s := range gSites[f] {
+			for _, g := range cands {
+				if g != f && s.Parent() == g {
+					calledByCand = true
 				}
 			}
 		}
-		if !okDef {
-			// poll mode: the block building this QueryOptions sleeps
-			for _, in := range a.Block().Instrs {
-				if cc := callCommon(in); cc != nil && calleeName(cc) == "time.Sleep" {
-					okDef = true
-				}
-			}
-		}
-		if !okDef {
-			return false
+		if !calledByCand {
+			return f
 		}
 	}
-	return true
+	return nil
 }
 
-// runLoopPacingWith is runLoopPacing with an extra pacing predicate.
-func runLoopPacingWith(c *Ctx, rule string, pkgs []string, min int, extra func(ssa.Instruction, *loop) bool) {
-	old := extraPacing
-	extraPacing = extra
-	defer func() { extraPacing = old }()
-	runLoopPacing(c, rule, pkgs, min)
+// ---- W1: provenance of the sent text ------------------------------------------------------------------------------
+
+const (
+	c01RoleTag    = 1
+	c01RoleHealth = 2
+)
+
+// c01Prov: where a list of health checks (or the text built from it) comes from.
+type c01Prov struct {
+	neutral bool               // no content: nil, make(...), an empty literal
+	roles   int                // filter roles applied on EVERY path from the origins
+	origins map[*ssa.Call]bool // Health().State replies reached
+	bad     []string           // contributions that are not a reply of this query
 }
 
-func runC01F1F2(c *Ctx, hf *ssa.Function) {
-	if !c.need("C01.F1", hf, "health filter (by role)") {
-		return
-	}
-	// the append whose result flows to the returned value
-	var app *ssa.Call
-	eachInstr(hf, func(i ssa.Instruction) {
-		if call, ok := i.(*ssa.Call); ok && calleeName(&call.Call) == "builtin.append" && strings.Contains(typeStr(call.Type()), "HealthCheck") {
-			app = call
-		}
-	})
-	if app == nil {
-		c.undecided("C01.F1", fnKey(hf)+"|append of a passing instance", "no append found")
-		return
-	}
-	A := app.Block()
-	var outer *loop
-	for _, l := range loopsOf(hf) {
-		if l.Body[A] && (outer == nil || len(l.Body) > len(outer.Body)) {
-			outer = l
-		}
-	}
-	if outer == nil {
-		c.undecided("C01.F1", fnKey(hf)+"|outer loop", "append is not inside a loop")
-		return
-	}
-	cut := map[*ssa.BasicBlock]bool{outer.Head: true}
-	reachesAppend := func(b *ssa.BasicBlock) bool {
-		if b == A {
-			return true
-		}
-		return reachableFrom([]*ssa.BasicBlock{b}, cut)[A]
-	}
-	type excl struct {
-		name  string
-		match func(fs []Fact) bool
-	}
-	hasEq := func(fs []Fact, field, konst string, prefix bool) bool {
-		for _, f := range fs {
-			b, ok := f.Cond.(*ssa.BinOp)
-			if !ok || b.Op != token.EQL || !f.Truth {
-				continue
-			}
-			if _, isF := isHealthField(b.X, field); !isF {
-				continue
-			}
-			if s, isS := constString(b.Y); isS && s == konst && !prefix {
-				return true
-			}
-			if prefix {
-				// CheckID == "<prefix>" + svc.ServiceID
-				if add, isAdd := b.Y.(*ssa.BinOp); isAdd && add.Op == token.ADD {
-					if s, isS := constString(add.X); isS && s == konst {
-						if _, isID := isHealthField(add.Y, "ServiceID"); isID {
-							return true
-						}
-					}
-				}
-			}
-		}
-		return false
-	}
-	sameNode := func(fs []Fact) bool {
-		for _, f := range fs {
-			b, ok := f.Cond.(*ssa.BinOp)
-			if !ok || b.Op != token.EQL || !f.Truth {
-				continue
-			}
-			bx, okx := isHealthField(b.X, "Node")
-			by, oky := isHealthField(b.Y, "Node")
-			if okx && oky && bx != by {
-				return true
-			}
-		}
-		return false
-	}
-	sameID := func(fs []Fact) bool {
-		for _, f := range fs {
-			b, ok := f.Cond.(*ssa.BinOp)
-			if !ok || b.Op != token.EQL || !f.Truth {
-				continue
-			}
-			bx, okx := isHealthField(b.X, "ServiceID")
-			by, oky := isHealthField(b.Y, "ServiceID")
-			if okx && oky && bx != by {
-				return true
-			}
-		}
-		return false
-	}
-	exclusions := []excl{
-		{"agent down (serfHealth critical on the same node)", func(fs []Fact) bool {
-			return sameNode(fs) && hasEq(fs, "CheckID", "serfHealth", false) && hasEq(fs, "Status", "critical", false)
-		}},
-		{"node maintenance (_node_maintenance on the same node)", func(fs []Fact) bool { return sameNode(fs) && hasEq(fs, "CheckID", "_node_maintenance", false) }},
-		{"service maintenance (_service_maintenance:<id> critical on the same node)", func(fs []Fact) bool {
-			return sameNode(fs) && hasEq(fs, "CheckID", "_service_maintenance:", true) && hasEq(fs, "Status", "critical", false)
-		}},
-	}
-	for _, e := range exclusions {
-		found, bad := false, false
-		var pos token.Pos = hf.Pos()
-		for _, b := range hf.Blocks {
-			if !e.match(factsAt(b)) {
-				continue
-			}
-			found = true
-			if reachesAppend(b) {
-				bad = true
-				pos = b.Instrs[0].Pos()
-			}
-		}
-		detail := "within one iteration over the instances, the edge on which this condition holds must not reach the append"
-		if !found {
-			detail = "no branch of the health filter tests this condition any more"
-		}
-		c.check("C01.F1", fnKey(hf)+"|excluded: "+e.name, pos, found && !bad, detail+": such an instance would get routes although the rule says it is not healthy")
-	}
-	// dominated by isServiceCheck()==true
-	okSvc := false
-	for _, f := range factsAt(A) {
-		if call, ok := f.Cond.(*ssa.Call); ok && f.Truth && call.Call.StaticCallee() != nil && isRepoFn(call.Call.StaticCallee()) &&
-			call.Call.StaticCallee().Signature.Results().Len() == 1 && strings.Contains(strings.ToLower(call.Call.StaticCallee().Name()), "servicecheck") {
-			okSvc = true
-		}
-	}
-	c.check("C01.F1", fnKey(hf)+"|only service checks become instances", app.Pos(), okSvc, "node and maintenance checks must never be appended as service instances (append dominated by isServiceCheck()==true)")
-	// passing >= 1
-	var passing ssa.Value
-	okPassing := false
-	for _, f := range factsAt(A) {
-		b, ok := f.Cond.(*ssa.BinOp)
-		if !ok {
-			continue
-		}
-		k, isK := constInt(b.Y)
-		if !isK {
-			continue
-		}
-		if _, isPhi := b.X.(*ssa.Phi); !isPhi {
-			continue
-		}
-		switch {
-		case b.Op == token.EQL && k == 0 && !f.Truth, b.Op == token.NEQ && k == 0 && f.Truth,
-			b.Op == token.GTR && k == 0 && f.Truth, b.Op == token.GEQ && k == 1 && f.Truth,
-			b.Op == token.LSS && k == 1 && !f.Truth, b.Op == token.LEQ && k == 0 && !f.Truth:
-			okPassing = true
-			passing = b.X
-		}
-	}
-	c.check("C01.F1", fnKey(hf)+"|at least one accepted check", app.Pos(), okPassing, "the append must be dominated by an edge implying passing >= 1; an instance without any check in an accepted status must not be routed to")
-	// strict: no edge into A (or into its dominating region) carries strict && total != passing
-	var strictP *ssa.Parameter
-	for _, p := range hf.Params {
-		if typeStr(p.Type()) == "bool" {
-			strictP = p
-		}
-	}
-	var total ssa.Value
-	okStrict := strictP != nil
-	if okStrict {
-		for _, p := range A.Preds {
-			fs := factsAt(p)
-			if iff, ok := p.Instrs[len(p.Instrs)-1].(*ssa.If); ok && p.Succs[0] != p.Succs[1] {
-				fs = append(fs, Fact{iff.Cond, p.Succs[0] == A})
-			}
-			strictFalse, equal := false, false
-			for _, f := range fs {
-				if f.Cond == strictP && !f.Truth {
-					strictFalse = true
-				}
-				if b, ok := f.Cond.(*ssa.BinOp); ok && passing != nil && (b.X == passing || b.Y == passing) {
-					if (b.Op == token.NEQ && !f.Truth) || (b.Op == token.EQL && f.Truth) {
-						if _, isK := b.Y.(*ssa.Const); !isK {
-							equal = true
-							if b.X == passing {
-								total = b.Y
-							} else {
-								total = b.X
-							}
-						}
-					}
-				}
-			}
-			if !strictFalse && !equal {
-				okStrict = false
-			}
-		}
-	}
-	c.check("C01.F1", fnKey(hf)+"|strict mode requires all checks", app.Pos(), okStrict, "every edge into the append must carry either strict == false or total == passing; otherwise checksRequired=all admits instances with failing checks")
+func c01Neutral() c01Prov { return c01Prov{neutral: true} }
 
-	// ---- F2 counters
-	checkCounter := func(phi ssa.Value, name string, needStatus bool) {
-		if phi == nil {
-			c.undecided("C01.F2", fnKey(hf)+"|counter "+name, "counter not identified")
+func c01Bad(why string) c01Prov { return c01Prov{bad: []string{why}} }
+
+func c01MeetProv(a, b c01Prov) c01Prov {
+	if a.neutral {
+		return b
+	}
+	if b.neutral {
+		return a
+	}
+	out := c01Prov{roles: a.roles & b.roles, origins: map[*ssa.Call]bool{}}
+	for k := range a.origins {
+		out.origins[k] = true
+	}
+	for k := range b.origins {
+		out.origins[k] = true
+	}
+	out.bad = append(append([]string{}, a.bad...), b.bad...)
+	return out
+}
+
+type c01Pipe struct {
+	c     *Ctx
+	watch *ssa.Function
+	reg   []*ssa.Function
+
+	roleMemo      map[*ssa.Function]int
+	tagFilters    []*ssa.Function
+	healthFilters []*ssa.Function
+	builders      []*ssa.Function
+	stageCalls    []*ssa.Call       // calls on the chain from the reply to the sent text
+	phis          map[*ssa.Phi]bool // merges on that chain
+	sends         []*ssa.Send       // sends on the updates channel
+	ctl           []ssa.Value       // conditions that decide whether a send happens
+	active        map[c01ProvKey]bool
+}
+
+type c01ProvKey struct {
+	v    ssa.Value
+	call *ssa.Call
+}
+
+func newC01Pipe(c *Ctx, watch *ssa.Function) *c01Pipe {
+	return &c01Pipe{c: c, watch: watch, reg: c.region(watch), roleMemo: map[*ssa.Function]int{}, phis: map[*ssa.Phi]bool{}, active: map[c01ProvKey]bool{}}
+}
+
+func c01AddFn(list *[]*ssa.Function, f *ssa.Function) {
+	for _, g := range *list {
+		if g == f {
 			return
 		}
-		n := 0
-		eachInstr(hf, func(i ssa.Instruction) {
-			b, ok := i.(*ssa.BinOp)
-			if !ok || b.Op != token.ADD || b.X != phi {
-				return
-			}
-			if k, isK := constInt(b.Y); !isK || k != 1 {
-				return
-			}
-			n++
-			fs := factsAt(b.Block())
-			ok2 := sameNode(fs) && sameID(fs)
-			if needStatus {
-				st := false
-				for _, f := range fs {
-					if call, isC := f.Cond.(*ssa.Call); isC && f.Truth && call.Call.StaticCallee() != nil && strings.Contains(strings.ToLower(call.Call.StaticCallee().Name()), "status") {
-						st = true
-					}
-				}
-				ok2 = ok2 && st
-			}
-			want := "same node and same service id"
-			if needStatus {
-				want += " and an accepted status"
-			}
-			c.check("C01.F2", fnKey(hf)+"|"+name+" counted only for "+want, b.Pos(), ok2,
-				name+" must be incremented only under "+want+": counting checks of other nodes or services makes an instance healthy because of somebody else's check (the ServiceID is unique per agent only)")
-		})
-		if n == 0 {
-			c.undecided("C01.F2", fnKey(hf)+"|counter "+name, "no increment found")
-		}
 	}
-	checkCounter(passing, "passing", true)
-	checkCounter(total, "total", false)
+	*list = append(*list, f)
 }
 
-func runC01F3(c *Ctx, tf *ssa.Function) {
-	if !c.need("C01.F3", tf, "tag filter (by role)") {
-		return
+// intrinsic: the filter roles a stage plays itself (in its own region, not in the stages it calls): it looks at the
+// ServiceTags of the checks (tag filter) or at their Status (health filter).
+func (p *c01Pipe) intrinsic(f *ssa.Function) int {
+	if r, ok := p.roleMemo[f]; ok {
+		return r
 	}
-	classes := []struct {
-		name  string
-		match func(cond ssa.Value) bool
-	}{
-		{"serfHealth", func(v ssa.Value) bool {
-			b, ok := v.(*ssa.BinOp)
-			if !ok || b.Op != token.EQL {
-				return false
-			}
-			_, isF := isHealthField(b.X, "CheckID")
-			s, _ := constString(b.Y)
-			return isF && s == "serfHealth"
-		}},
-		{"_node_maintenance", func(v ssa.Value) bool {
-			b, ok := v.(*ssa.BinOp)
-			if !ok || b.Op != token.EQL {
-				return false
-			}
-			_, isF := isHealthField(b.X, "CheckID")
-			s, _ := constString(b.Y)
-			return isF && s == "_node_maintenance"
-		}},
-		{"_service_maintenance*", func(v ssa.Value) bool {
-			call, ok := isCallTo(v, "strings.HasPrefix")
-			if !ok {
-				return false
-			}
-			_, isF := isHealthField(call.Call.Args[0], "CheckID")
-			s, _ := constString(call.Call.Args[1])
-			return isF && strings.HasPrefix(s, "_service_maintenance")
-		}},
+	reg := c01StageRegion(f)
+	r := 0
+	if c01ReadsField(reg, "ServiceTags") {
+		r |= c01RoleTag
 	}
-	appendsCheck := func(b *ssa.BasicBlock) bool {
-		for _, in := range b.Instrs {
-			if call, ok := in.(*ssa.Call); ok && calleeName(&call.Call) == "builtin.append" && strings.Contains(typeStr(call.Type()), "HealthCheck") {
-				return true
-			}
-		}
-		return false
+	if c01ReadsField(reg, "Status") {
+		r |= c01RoleHealth
 	}
-	for _, cl := range classes {
-		ok := false
-		var pos token.Pos = tf.Pos()
-		for _, b := range tf.Blocks {
-			if len(b.Instrs) == 0 {
-				continue
-			}
-			iff, isIf := b.Instrs[len(b.Instrs)-1].(*ssa.If)
-			if !isIf || !cl.match(iff.Cond) {
-				continue
-			}
-			pos = iff.Pos()
-			s := b.Succs[0]
-			// the true edge appends the check without a tag test in between
-			if appendsCheck(s) {
-				tagTested := false
-				for _, f := range factsAt(s) {
-					if call, isC := isCallTo(f.Cond, "strings.HasPrefix"); isC {
-						if _, isID := isHealthField(call.Call.Args[0], "CheckID"); !isID {
-							tagTested = true
-						}
-					}
-				}
-				if !tagTested {
-					ok = true
-				}
-			}
-		}
-		c.check("C01.F3", fnKey(tf)+"|"+cl.name+" checks kept without the tag test", pos, ok,
-			"node-level and maintenance checks carry no service tags; if the tag filter drops them the health filter can no longer see a dead agent or maintenance mode, and instances on such nodes stay in the table")
+	p.roleMemo[f] = r
+	return r
+}
+
+func (p *c01Pipe) noteRoles(f *ssa.Function, r int) {
+	if r&c01RoleTag != 0 {
+		c01AddFn(&p.tagFilters, f)
+	}
+	if r&c01RoleHealth != 0 {
+		c01AddFn(&p.healthFilters, f)
 	}
 }
 
-// keyShape renders a string-building expression as the sequence of struct field names and
-// constant separators it is made of.
-func keyShape(v ssa.Value) ([]string, bool) {
-	switch x := v.(type) {
-	case *ssa.BinOp:
-		if x.Op == token.ADD {
-			l, ok1 := keyShape(x.X)
-			r, ok2 := keyShape(x.Y)
-			return append(l, r...), ok1 && ok2
-		}
-	case *ssa.Const:
-		if s, ok := constString(x); ok {
-			return []string{"\"" + s + "\""}, true
-		}
-	case *ssa.UnOp:
-		if x.Op == token.MUL {
-			if fa, ok := x.X.(*ssa.FieldAddr); ok {
-				return []string{fieldName(fa.X.Type(), fa.Field)}, true
-			}
-		}
-	case *ssa.Call:
-		if calleeName(&x.Call) == "fmt.Sprintf" {
-			format, ok := constString(x.Call.Args[0])
-			if !ok {
-				return nil, false
-			}
-			// variadic args: slice of an alloc'd array with one store per element
-			var args []ssa.Value
-			if sl, ok := x.Call.Args[1].(*ssa.Slice); ok {
-				if arr, ok := sl.X.(*ssa.Alloc); ok {
-					byIdx := map[int64]ssa.Value{}
-					for _, r := range *arr.Referrers() {
-						if ia, ok := r.(*ssa.IndexAddr); ok {
-							k, _ := constInt(ia.Index)
-							for _, r2 := range *ia.Referrers() {
-								if st, ok := r2.(*ssa.Store); ok {
-									byIdx[k] = stripIface(st.Val)
-								}
-							}
-						}
-					}
-					for k := int64(0); k < int64(len(byIdx)); k++ {
-						args = append(args, byIdx[k])
-					}
-				}
-			}
-			var out []string
-			ai := 0
-			lit := ""
-			for k := 0; k < len(format); k++ {
-				if format[k] == '%' && k+1 < len(format) && (format[k+1] == 's' || format[k+1] == 'v') {
-					if lit != "" {
-						out = append(out, "\""+lit+"\"")
-						lit = ""
-					}
-					if ai >= len(args) {
-						return nil, false
-					}
-					sh, ok := keyShape(args[ai])
-					if !ok {
-						return nil, false
-					}
-					out = append(out, sh...)
-					ai++
-					k++
-					continue
-				}
-				lit += string(format[k])
-			}
-			if lit != "" {
-				out = append(out, "\""+lit+"\"")
-			}
-			return out, true
-		}
+func c01FrameCall(fr *c01Frame) *ssa.Call {
+	if fr == nil {
+		return nil
 	}
-	return nil, false
+	return fr.call
 }
 
-func runC01K1(c *Ctx, builder *ssa.Function) {
-	// writer: map update m[name][id] = true in the builder (inner map keyed by the instance id)
-	var wShape []string
-	var wPos token.Pos
-	eachInstr(builder, func(i ssa.Instruction) {
-		mu, ok := i.(*ssa.MapUpdate)
-		if !ok {
-			return
+func c01ParamIndex(x *ssa.Parameter) int {
+	for k, q := range x.Parent().Params {
+		if q == x {
+			return k
 		}
-		if mt, ok := mu.Map.Type().Underlying().(*types.Map); ok {
-			if b, ok := mt.Elem().Underlying().(*types.Basic); ok && b.Kind() == types.Bool {
-				if sh, ok := keyShape(mu.Key); ok {
-					wShape, wPos = sh, mu.Pos()
-				}
-			}
-		}
-	})
-	// reader: lookup in a map[string]bool parameter of a function reachable from the builder
-	var rShape []string
-	var rPos token.Pos
-	for f := range c.reach(builder) {
-		if f == builder {
-			continue
-		}
-		eachInstr(f, func(i ssa.Instruction) {
-			lk, ok := i.(*ssa.Lookup)
-			if !ok {
-				return
-			}
-			if _, isParam := lk.X.(*ssa.Parameter); !isParam {
-				if _, isFV := lk.X.(*ssa.FreeVar); !isFV {
-					return
-				}
-			}
-			if mt, ok := lk.X.Type().Underlying().(*types.Map); ok {
-				if b, ok := mt.Elem().Underlying().(*types.Basic); ok && b.Kind() == types.Bool {
-					if sh, ok := keyShape(lk.Index); ok {
-						rShape, rPos = sh, lk.Pos()
-					}
-				}
-			}
-		})
 	}
-	if wShape == nil || rShape == nil {
-		c.undecided("C01.K1", fnKey(builder)+"|instance key writer/reader", "could not extract the key shapes of the passing-instance map")
-		return
-	}
-	_ = wPos
-	c.check("C01.K1", fnKey(builder)+"|instance key written = key looked up", rPos, strings.Join(wShape, "+") == strings.Join(rShape, "+"),
-		"the config builder records passing instances under "+strings.Join(wShape, "+")+" but the per-service step looks them up under "+strings.Join(rShape, "+")+": no (or the wrong) instance is found, so healthy instances get no routes or instances of another service are taken for healthy")
+	return -1
 }
 
-func runC01M1(c *Ctx, builder *ssa.Function) {
+// storesInto: the values stored into a local cell / array (directly or through element addresses).
+func c01StoresInto(a ssa.Value) []ssa.Value {
+	var out []ssa.Value
+	refs := a.Referrers()
+	if refs == nil {
+		return nil
+	}
+	for _, r := range *refs {
+		switch y := r.(type) {
+		case *ssa.Store:
+			if y.Addr == a {
+				out = append(out, y.Val)
+			}
+		case *ssa.IndexAddr:
+			for _, r2 := range *y.Referrers() {
+				if st, ok := r2.(*ssa.Store); ok && st.Addr == y {
+					out = append(out, st.Val)
+				}
+			}
+		}
+	}
+	return out
+}
+
+// viaParam: a parameter stands for the argument of the call we came in through, or of every static call site.
+func (p *c01Pipe) viaParam(x *ssa.Parameter, fr *c01Frame, depth int, rec func(ssa.Value, *c01Frame, int) c01Prov) c01Prov {
+	fn := x.Parent()
+	idx := c01ParamIndex(x)
+	if fr != nil {
+		if fr.call.Call.StaticCallee() == fn && idx >= 0 && idx < len(fr.call.Call.Args) {
+			return rec(fr.call.Call.Args[idx], fr.up, depth+1)
+		}
+		return c01Bad("parameter " + x.Name() + " of " + fnKey(fn) + " reached outside its call")
+	}
+	sites := gSites[fn]
+	if len(sites) == 0 || !onlyStaticallyCalled(fn) || idx < 0 {
+		return c01Bad("parameter " + x.Name() + " of " + fnKey(fn) + " (callers not known)")
+	}
+	out := c01Neutral()
+	for _, s := range sites {
+		if cc := s.Common(); idx < len(cc.Args) {
+			out = c01MeetProv(out, rec(cc.Args[idx], nil, depth+1))
+		}
+	}
+	return out
+}
+
+func (p *c01Pipe) viaFreeVar(x *ssa.FreeVar, depth int, load bool, rec func(ssa.Value, *c01Frame, int) c01Prov) c01Prov {
+	fn := x.Parent()
+	if fn == nil || fn.Parent() == nil {
+		return c01Bad("captured variable " + x.Name())
+	}
+	idx := -1
+	for k, fv := range fn.FreeVars {
+		if fv == x {
+			idx = k
+		}
+	}
+	out := c01Neutral()
 	n := 0
-	eachInstr(builder, func(i ssa.Instruction) {
-		call, ok := i.(*ssa.Call)
-		if !ok || calleeName(&call.Call) != "strings.Join" {
+	eachInstr(fn.Parent(), func(i ssa.Instruction) {
+		mc, ok := i.(*ssa.MakeClosure)
+		if !ok || mc.Fn != fn || idx < 0 || idx >= len(mc.Bindings) {
 			return
 		}
 		n++
-		list := call.Call.Args[0]
-		sorted := false
-		eachInstr(builder, func(j ssa.Instruction) {
-			sc, ok := j.(*ssa.Call)
-			if !ok {
+		b := mc.Bindings[idx]
+		if load {
+			// the closure reads the variable through its cell
+			if _, isAlloc := b.(*ssa.Alloc); !isAlloc {
+				out = c01MeetProv(out, c01Bad("captured variable "+x.Name()))
 				return
 			}
-			switch calleeName(&sc.Call) {
-			case "sort.Sort", "sort.Stable", "sort.Strings", "slices.Sort", "sort.Slice":
-				if dominatesInstr(j, i) && (sc.Call.Args[0] == list || derives(sc.Call.Args[0], func(v ssa.Value) bool { return v == list })) {
-					sorted = true
-				}
+			for _, sv := range c01StoresInto(b) {
+				out = c01MeetProv(out, rec(sv, nil, depth+1))
 			}
-		})
-		c.check("C01.M1", fnKey(builder)+"|command list sorted before it is joined", call.Pos(), sorted,
-			"the commands are collected from concurrent goroutines / map iteration; without sorting, the same registry state yields differently ordered texts, each of which is applied as a change (and command order decides which route wins)")
-	})
-	c.atLeast("C01.M1", "joins of the command list", n, 1)
-}
-
-func runC01B1(c *Ctx) {
-	wb := c.fn("main", "watchBackend")
-	nt := c.fn("route", "NewTable")
-	if !c.need("C01.B1", wb, "main.watchBackend") || nt == nil {
-		return
-	}
-	var ntCall *ssa.Call
-	eachInstr(wb, func(i ssa.Instruction) {
-		if call, ok := i.(*ssa.Call); ok && call.Call.StaticCallee() == nt {
-			ntCall = call
-		}
-	})
-	if ntCall == nil {
-		c.undecided("C01.B1", "main.watchBackend|NewTable call", "not found")
-		return
-	}
-	buf := ntCall.Call.Args[0]
-	// the select over the two registry channels
-	chanRole := func(ch ssa.Value) string {
-		if call, ok := ch.(*ssa.Call); ok && call.Call.IsInvoke() {
-			return call.Call.Method.Name()
-		}
-		return ""
-	}
-	roleOf := func(v ssa.Value) string {
-		role := ""
-		derives(v, func(x ssa.Value) bool {
-			e, ok := x.(*ssa.Extract)
-			if !ok {
-				return false
-			}
-			sel, ok := e.Tuple.(*ssa.Select)
-			if !ok || e.Index < 2 {
-				return false
-			}
-			k := e.Index - 2
-			// index among receive states
-			ri := 0
-			for _, st := range sel.States {
-				if st.Dir == types.RecvOnly {
-					if ri == k {
-						role = chanRole(st.Chan)
-					}
-					ri++
-				}
-			}
-			return false
-		})
-		return role
-	}
-	var reset ssa.Instruction
-	var svcW, manW []ssa.Instruction
-	eachInstr(wb, func(i ssa.Instruction) {
-		cc := callCommon(i)
-		if cc == nil || len(cc.Args) == 0 || cc.Args[0] != buf {
 			return
 		}
-		switch calleeName(cc) {
-		case "(*bytes.Buffer).Reset":
-			reset = i
-		case "(*bytes.Buffer).WriteString", "(*bytes.Buffer).Write":
-			if _, isK := cc.Args[1].(*ssa.Const); isK {
-				return
+		out = c01MeetProv(out, rec(b, nil, depth+1))
+	})
+	if n == 0 {
+		return c01Bad("captured variable " + x.Name())
+	}
+	return out
+}
+
+// prov: the provenance of a list of health checks (or one check).
+func (p *c01Pipe) prov(v ssa.Value, fr *c01Frame, depth int) c01Prov {
+	if v == nil || depth > 80 {
+		return c01Bad("too deep")
+	}
+	key := c01ProvKey{v, c01FrameCall(fr)}
+	if p.active[key] {
+		return c01Neutral() // a cycle adds nothing new
+	}
+	p.active[key] = true
+	defer delete(p.active, key)
+
+	meetAll := func(vs []ssa.Value) c01Prov {
+		out := c01Neutral()
+		for _, x := range vs {
+			out = c01MeetProv(out, p.prov(x, fr, depth+1))
+		}
+		return out
+	}
+	switch x := v.(type) {
+	case *ssa.Const, *ssa.MakeSlice:
+		return c01Neutral()
+	case *ssa.Alloc:
+		return meetAll(c01StoresInto(x))
+	case *ssa.Slice:
+		return p.prov(x.X, fr, depth+1)
+	case *ssa.ChangeType:
+		return p.prov(x.X, fr, depth+1)
+	case *ssa.Convert:
+		return p.prov(x.X, fr, depth+1)
+	case *ssa.MakeInterface:
+		return p.prov(x.X, fr, depth+1)
+	case *ssa.ChangeInterface:
+		return p.prov(x.X, fr, depth+1)
+	case *ssa.TypeAssert:
+		return p.prov(x.X, fr, depth+1)
+	case *ssa.Phi:
+		p.phis[x] = true
+		return meetAll(x.Edges)
+	case *ssa.IndexAddr:
+		return p.prov(x.X, fr, depth+1)
+	case *ssa.Index:
+		return p.prov(x.X, fr, depth+1)
+	case *ssa.UnOp:
+		if x.Op != token.MUL {
+			break
+		}
+		switch a := x.X.(type) {
+		case *ssa.Alloc:
+			return meetAll(c01StoresInto(a))
+		case *ssa.IndexAddr:
+			return p.prov(a.X, fr, depth+1)
+		case *ssa.FreeVar:
+			return p.viaFreeVar(a, depth, true, p.prov)
+		}
+		return c01Bad("a value loaded from " + accessPath(x.X) + " (state kept outside this snapshot)")
+	case *ssa.Extract:
+		if call, ok := x.Tuple.(*ssa.Call); ok {
+			return p.provCall(call, x.Index, fr, depth)
+		}
+	case *ssa.Call:
+		return p.provCall(x, 0, fr, depth)
+	case *ssa.Parameter:
+		return p.viaParam(x, fr, depth, p.prov)
+	case *ssa.FreeVar:
+		return p.viaFreeVar(x, depth, false, p.prov)
+	}
+	return c01Bad("a value that is not derived from the reply: " + v.Name() + " in " + fnKey(c01ParentOf(v)))
+}
+
+func c01ParentOf(v ssa.Value) *ssa.Function {
+	if i, ok := v.(ssa.Instruction); ok {
+		return i.Parent()
+	}
+	return v.Parent()
+}
+
+func (p *c01Pipe) provCall(call *ssa.Call, idx int, fr *c01Frame, depth int) c01Prov {
+	if c01IsStateInstr(call) {
+		if idx != 0 {
+			return c01Bad("not the list of checks of the reply")
+		}
+		return c01Prov{origins: map[*ssa.Call]bool{call: true}}
+	}
+	n := typeArgs.ReplaceAllString(calleeName(&call.Call), "")
+	if n == "builtin.append" || strings.HasPrefix(n, "slices.") {
+		out := c01Neutral()
+		k := 0
+		for _, a := range call.Call.Args {
+			if c01IsChecks(a.Type()) || c01IsCheck(a.Type()) {
+				k++
+				out = c01MeetProv(out, p.prov(a, fr, depth+1))
 			}
-			// which channel does the text come from? The text variables are phis fed by select extracts.
-			switch roleOfText(cc.Args[1], roleOf) {
-			case "WatchServices":
-				svcW = append(svcW, i)
-			case "WatchManual":
-				manW = append(manW, i)
+		}
+		if k == 0 {
+			return c01Bad("result of " + n)
+		}
+		return out
+	}
+	sc := call.Call.StaticCallee()
+	if sc == nil || !isRepoFn(sc) || len(sc.Blocks) == 0 || fr.depth() >= 5 {
+		return c01Bad("result of " + n + " (not a repository function)")
+	}
+	p.stageCalls = append(p.stageCalls, call)
+	roles := p.intrinsic(sc)
+	p.noteRoles(sc, roles)
+	inner := &c01Frame{call, fr}
+	out := c01Neutral()
+	eachInstr(sc, func(i ssa.Instruction) {
+		if r, ok := i.(*ssa.Return); ok && idx < len(r.Results) {
+			out = c01MeetProv(out, p.prov(r.Results[idx], inner, depth+1))
+		}
+	})
+	if !out.neutral {
+		out.roles |= roles
+	}
+	return out
+}
+
+// prefilter: the filter roles applied inside a builder to its parameter before anything else looks at it: the only
+// use of the value is as the argument of a filter stage, whose result is used in the same way or freely.
+func (p *c01Pipe) prefilter(v ssa.Value, depth int) int {
+	if depth > 3 {
+		return 0
+	}
+	var uses []ssa.Instruction
+	var collect func(x ssa.Value)
+	collect = func(x ssa.Value) {
+		refs := x.Referrers()
+		if refs == nil {
+			return
+		}
+		for _, r := range *refs {
+			switch y := r.(type) {
+			case *ssa.DebugRef:
+			case *ssa.ChangeType:
+				collect(y)
+			case *ssa.Call:
+				if n := calleeName(&y.Call); n == "builtin.len" || n == "builtin.cap" {
+					continue
+				}
+				uses = append(uses, r)
 			default:
-				c.check("C01.B1", "main.watchBackend|table text only from the registry channels", i.Pos(), false, "a text written into the table buffer does not come from WatchServices()/WatchManual()")
-			}
-		}
-	})
-	ok := len(svcW) >= 1 && len(manW) >= 1
-	if ok {
-		for _, s := range svcW {
-			for _, m := range manW {
-				if !dominatesInstr(s, m) {
-					ok = false
-				}
+				uses = append(uses, r)
 			}
 		}
 	}
-	c.check("C01.B1", "main.watchBackend|service text before manual text", ntCall.Pos(), ok,
-		"the operator's manual route commands must be applied on top of the service routes: the buffer parsed by NewTable must contain the service text first and the manual text after it (route del/weight overrides only work in that order)")
-	okReset := reset != nil
-	if okReset {
-		for _, w := range append(append([]ssa.Instruction{}, svcW...), manW...) {
-			if !dominatesInstr(reset, w) || !dominatesInstr(w, ntCall) {
-				okReset = false
+	collect(v)
+	if len(uses) != 1 {
+		return 0
+	}
+	call, ok := uses[0].(*ssa.Call)
+	if !ok {
+		return 0
+	}
+	sc := call.Call.StaticCallee()
+	if sc == nil || !c01IsStage(sc) {
+		return 0
+	}
+	roles := p.intrinsic(sc)
+	p.noteRoles(sc, roles)
+	p.stageCalls = append(p.stageCalls, call)
+	var res ssa.Value
+	if c01IsChecks(call.Type()) {
+		res = call
+	} else if refs := call.Referrers(); refs != nil {
+		for _, r := range *refs {
+			if ex, ok := r.(*ssa.Extract); ok && c01IsChecks(ex.Type()) {
+				res = ex
 			}
 		}
 	}
-	// every update received from either registry channel reaches the rebuild: from the select, the loop head is
-	// not reachable without passing the buffer Reset (the only legitimate skip is the unchanged-text comparison after it)
-	if reset != nil {
-		var sel ssa.Instruction
-		eachInstr(wb, func(i ssa.Instruction) {
-			if s, ok := i.(*ssa.Select); ok && len(s.States) >= 2 {
-				sel = i
-			}
-		})
-		if sel != nil {
-			var lp *loop
-			for _, l := range loopsOf(wb) {
-				if l.Body[sel.Block()] && (lp == nil || len(l.Body) < len(lp.Body)) {
-					lp = l
-				}
-			}
-			if lp != nil {
-				skip := false
-				// search from the select to the head avoiding the Reset call
-				type item struct {
-					b   *ssa.BasicBlock
-					idx int
-				}
-				seen := map[*ssa.BasicBlock]bool{}
-				stack := []item{{sel.Block(), instrIndex(sel) + 1}}
-				for len(stack) > 0 && !skip {
-					it := stack[len(stack)-1]
-					stack = stack[:len(stack)-1]
-					blocked := false
-					for k := it.idx; k < len(it.b.Instrs); k++ {
-						if it.b.Instrs[k] == reset {
-							blocked = true
-							break
-						}
-					}
-					if blocked {
-						continue
-					}
-					for _, sx := range it.b.Succs {
-						if sx == lp.Head {
-							skip = true
-						} else if lp.Body[sx] && !seen[sx] {
-							seen[sx] = true
-							stack = append(stack, item{sx, 0})
-						}
-					}
-				}
-				c.check("C01.B2", "main.watchBackend|every registry update is considered for a rebuild", sel.Pos(), !skip,
-					"an update received from the service or the manual channel can return to the select without rebuilding the candidate text: operator overrides (or service changes) received on that path are never applied — e.g. KV edits while no tagged instance is healthy")
-			}
-		}
+	if res == nil {
+		return roles
 	}
-	c.check("C01.B1", "main.watchBackend|buffer reset, then written, then parsed", ntCall.Pos(), okReset,
-		"the buffer must be Reset before the two texts are written and both writes must precede NewTable; otherwise texts of earlier updates accumulate (instances that left the registry keep their routes)")
+	return roles | p.prefilter(res, depth+1)
 }
 
-// roleOfText: follow phis of the text variable to the select extract feeding it.
-func roleOfText(v ssa.Value, roleOf func(ssa.Value) string) string {
-	roles := map[string]bool{}
-	seen := map[ssa.Value]bool{}
-	var walk func(x ssa.Value)
-	walk = func(x ssa.Value) {
-		if seen[x] {
+// textProv: the provenance of the text sent to the updater: back to the call of a builder (a repository function
+// that takes a list of health checks), through helpers that merely return it.
+func (p *c01Pipe) textProv(v ssa.Value, fr *c01Frame, depth int) c01Prov {
+	if v == nil || depth > 40 {
+		return c01Bad("too deep")
+	}
+	key := c01ProvKey{v, c01FrameCall(fr)}
+	if p.active[key] {
+		return c01Neutral()
+	}
+	p.active[key] = true
+	defer delete(p.active, key)
+	switch x := v.(type) {
+	case *ssa.Phi:
+		p.phis[x] = true
+		out := c01Neutral()
+		for _, e := range x.Edges {
+			out = c01MeetProv(out, p.textProv(e, fr, depth+1))
+		}
+		return out
+	case *ssa.ChangeType:
+		return p.textProv(x.X, fr, depth+1)
+	case *ssa.Extract:
+		if call, ok := x.Tuple.(*ssa.Call); ok {
+			return p.textCall(call, x.Index, fr, depth)
+		}
+	case *ssa.Call:
+		return p.textCall(x, 0, fr, depth)
+	case *ssa.Parameter:
+		return p.viaParam(x, fr, depth, p.textProv)
+	case *ssa.FreeVar:
+		return p.viaFreeVar(x, depth, false, p.textProv)
+	case *ssa.UnOp:
+		if x.Op == token.MUL {
+			switch a := x.X.(type) {
+			case *ssa.Alloc:
+				out := c01Neutral()
+				for _, sv := range c01StoresInto(a) {
+					out = c01MeetProv(out, p.textProv(sv, fr, depth+1))
+				}
+				return out
+			case *ssa.FreeVar:
+				return p.viaFreeVar(a, depth, true, p.textProv)
+			}
+			return c01Bad("a text loaded from " + accessPath(x.X) + " (state kept outside this snapshot)")
+		}
+	case *ssa.Const:
+		return c01Bad("a constant text " + x.String())
+	}
+	return c01Bad("a text that is not the result of the config builder: " + v.Name())
+}
+
+func (p *c01Pipe) textCall(call *ssa.Call, idx int, fr *c01Frame, depth int) c01Prov {
+	if n := calleeName(&call.Call); strings.HasPrefix(n, "strings.") && !call.Call.IsInvoke() {
+		// strings.TrimSpace(text) and the like: the text arguments
+		out := c01Neutral()
+		k := 0
+		for _, a := range call.Call.Args {
+			if b, ok := a.Type().Underlying().(*types.Basic); ok && b.Kind() == types.String {
+				if _, isK := a.(*ssa.Const); isK {
+					continue
+				}
+				k++
+				out = c01MeetProv(out, p.textProv(a, fr, depth+1))
+			}
+		}
+		if k > 0 {
+			return out
+		}
+	}
+	sc := call.Call.StaticCallee()
+	if sc == nil || !isRepoFn(sc) || len(sc.Blocks) == 0 || fr.depth() >= 5 {
+		return c01Bad("the result of " + calleeName(&call.Call) + " (not a repository function)")
+	}
+	nList := 0
+	out := c01Neutral()
+	for k, a := range call.Call.Args {
+		if !c01IsChecks(a.Type()) {
+			continue
+		}
+		nList++
+		pr := p.prov(a, fr, depth+1)
+		if !pr.neutral && k < len(sc.Params) {
+			pr.roles |= p.prefilter(sc.Params[k], 0)
+		}
+		out = c01MeetProv(out, pr)
+	}
+	if nList > 0 {
+		c01AddFn(&p.builders, sc)
+		p.stageCalls = append(p.stageCalls, call)
+		if out.neutral {
+			return c01Bad("the builder is given an empty list")
+		}
+		return out
+	}
+	// a helper that returns the text
+	inner := &c01Frame{call, fr}
+	eachInstr(sc, func(i ssa.Instruction) {
+		if r, ok := i.(*ssa.Return); ok && idx < len(r.Results) {
+			out = c01MeetProv(out, p.textProv(r.Results[idx], inner, depth+1))
+		}
+	})
+	return out
+}
+
+func (p *c01Pipe) runW1() {
+	c := p.c
+	eachInstrOf(p.reg, func(f *ssa.Function, i ssa.Instruction) {
+		snd, ok := i.(*ssa.Send)
+		if !ok || !c01IsTextChan(snd.Chan.Type()) {
 			return
 		}
-		seen[x] = true
-		switch y := x.(type) {
-		case *ssa.Phi:
-			for _, e := range y.Edges {
-				walk(e)
+		isParam := func(v ssa.Value) bool {
+			q, ok := v.(*ssa.Parameter)
+			return ok && q.Parent() == p.watch
+		}
+		if !derives(snd.Chan, isParam) {
+			return
+		}
+		p.sends = append(p.sends, snd)
+		pr := p.textProv(snd.X, nil, 0)
+		var missing []string
+		if pr.neutral || len(pr.origins) == 0 {
+			missing = append(missing, "it is not derived from a Health().State reply")
+		}
+		if pr.roles&c01RoleTag == 0 {
+			missing = append(missing, "the tag filter is not applied on every path")
+		}
+		if pr.roles&c01RoleHealth == 0 {
+			missing = append(missing, "the health filter is not applied on every path")
+		}
+		for _, b := range pr.bad {
+			missing = append(missing, "it contains "+b)
+		}
+		detail := "the text sent to the table updater must be built from the health filter applied to the tag filter applied to this iteration's Health().State reply; bypassing a stage publishes unhealthy, maintenance-mode or untagged instances"
+		if len(missing) > 0 {
+			detail += " [" + strings.Join(missing, "; ") + "]"
+		}
+		c.check("C01.W1", fnKey(p.watch)+"|sent config = builder(healthFilter(tagFilter(Health().State reply)))", snd.Pos(), len(missing) == 0, detail)
+	})
+	c.atLeast("C01.W1", "sends on the updates channel", len(p.sends), 1)
+}
+
+// ---- W2: nothing but the query index survives a snapshot; every successful reply is published ---------------------
+
+// c01MayQuery: the instruction is the Health().State query or a (synchronous) call of a helper that may issue it.
+func c01MayQuery(i ssa.Instruction) bool {
+	return liftMay(c01IsStateInstr)(i)
+}
+
+// snapshotLoops: loops of the watcher's region whose body issues the query.
+func (p *c01Pipe) snapshotLoops() map[*ssa.Function][]*loop {
+	out := map[*ssa.Function][]*loop{}
+	for _, f := range p.reg {
+		for _, l := range loopsOf(f) {
+			has := false
+			for b := range l.Body {
+				for _, i := range b.Instrs {
+					if _, isGo := i.(*ssa.Go); !isGo && c01MayQuery(i) {
+						has = true
+					}
+				}
 			}
-		case *ssa.Extract:
-			if r := roleOf(y); r != "" {
-				roles[r] = true
-			} else {
-				roles["?"] = true
+			if has {
+				out[f] = append(out[f], l)
 			}
-		case *ssa.Const:
-		default:
-			roles["?"] = true
 		}
 	}
-	walk(v)
-	if len(roles) == 1 {
-		for r := range roles {
-			return r
+	return out
+}
+
+// c01Controls: the two-way branches that decide whether instruction s is executed before the loop l (or, without a
+// loop, the function) is left or restarted.
+func c01Controls(s ssa.Instruction, l *loop) []*ssa.If {
+	fn := s.Parent()
+	skips := func(start *ssa.BasicBlock) bool {
+		if l != nil && (start == l.Head || !l.Body[start]) {
+			return true
+		}
+		seen := map[*ssa.BasicBlock]bool{start: true}
+		stack := []*ssa.BasicBlock{start}
+		for len(stack) > 0 {
+			b := stack[len(stack)-1]
+			stack = stack[:len(stack)-1]
+			blocked := false
+			for _, in := range b.Instrs {
+				if in == s {
+					blocked = true
+					break
+				}
+				if _, isRet := in.(*ssa.Return); isRet {
+					return true
+				}
+			}
+			if blocked {
+				continue
+			}
+			for _, sx := range b.Succs {
+				if l != nil && (sx == l.Head || !l.Body[sx]) {
+					return true
+				}
+				if !seen[sx] {
+					seen[sx] = true
+					stack = append(stack, sx)
+				}
+			}
+		}
+		return false
+	}
+	var out []*ssa.If
+	for _, x := range fn.Blocks {
+		if l != nil && !l.Body[x] {
+			continue
+		}
+		if len(x.Instrs) == 0 {
+			continue
+		}
+		iff, ok := x.Instrs[len(x.Instrs)-1].(*ssa.If)
+		if !ok || x.Succs[0] == x.Succs[1] {
+			continue
+		}
+		if skips(x.Succs[0]) != skips(x.Succs[1]) {
+			out = append(out, iff)
 		}
 	}
-	return "?"
+	return out
+}
+
+func c01IsErrTest(v ssa.Value) bool {
+	v, _ = c01StripNot(v, true)
+	if call, ok := v.(*ssa.Call); ok && len(call.Call.Args) > 0 {
+		// failed(err), errors.Is(err, x): a verdict on the error only
+		for _, a := range call.Call.Args {
+			if typeStr(a.Type()) != "error" {
+				if _, isK := a.(*ssa.Const); !isK {
+					if _, isG := a.(*ssa.Global); !isG {
+						if u, isU := a.(*ssa.UnOp); !isU || typeStr(u.Type()) != "error" {
+							return false
+						}
+					}
+				}
+			}
+		}
+		return true
+	}
+	b, ok := v.(*ssa.BinOp)
+	if !ok || (b.Op != token.EQL && b.Op != token.NEQ) {
+		return false
+	}
+	var other ssa.Value
+	switch {
+	case isNilConst(b.Y):
+		other = b.X
+	case isNilConst(b.X):
+		other = b.Y
+	default:
+		return false
+	}
+	return typeStr(other.Type()) == "error"
+}
+
+func (p *c01Pipe) runW2() {
+	c := p.c
+	loops := p.snapshotLoops()
+	innermost := func(f *ssa.Function, b *ssa.BasicBlock) *loop {
+		var best *loop
+		for _, l := range loops[f] {
+			if l.Body[b] && (best == nil || len(l.Body) < len(best.Body)) {
+				best = l
+			}
+		}
+		return best
+	}
+	// the conditions that decide whether a send happens, up to the loop that issues the query
+	for _, snd := range p.sends {
+		var s ssa.Instruction = snd
+		for hop := 0; hop < 4; hop++ {
+			f := s.Parent()
+			l := innermost(f, s.Block())
+			for _, iff := range c01Controls(s, l) {
+				p.ctl = append(p.ctl, iff.Cond)
+				pos := iff.Pos()
+				if !pos.IsValid() {
+					pos = iff.Cond.Pos()
+				}
+				c.check("C01.W2", fnKey(p.watch)+"|every successful reply is published", pos, c01IsErrTest(iff.Cond) || c01ErrVerdict(iff, s, l),
+					"whether the configuration of a snapshot is sent may depend only on the error of the query; a condition on anything else (an earlier snapshot, the index, the instance set) lets the table miss a change of the registry - the route commands depend on the catalog entries too, not only on what the condition looks at")
+			}
+			if l != nil {
+				break
+			}
+			sites := gSites[f]
+			if len(sites) != 1 || !onlyStaticallyCalled(f) {
+				break
+			}
+			s = sites[0]
+		}
+	}
+	n := 0
+	for f, ls := range loops {
+		for _, l := range ls {
+			n++
+			for _, in := range l.Head.Instrs {
+				phi, ok := in.(*ssa.Phi)
+				if !ok {
+					continue
+				}
+				ts := typeStr(phi.Type())
+				okT := ts == "uint64" || ts == "*"+apiPkg+".QueryOptions"
+				if !okT {
+					// harmless when it influences neither what is sent nor whether it is sent
+					isPhi := func(v ssa.Value) bool { return v == phi }
+					infl := p.phis[phi]
+					for _, snd := range p.sends {
+						infl = infl || derives(snd.X, isPhi)
+					}
+					for _, cond := range p.ctl {
+						infl = infl || derives(cond, isPhi)
+					}
+					for _, call := range p.stageCalls {
+						for _, a := range call.Call.Args {
+							infl = infl || derives(a, isPhi)
+						}
+					}
+					okT = !infl
+				}
+				c.check("C01.W2", fnKey(f)+"|loop-carried "+phi.Comment, phi.Pos(), okT,
+					"the watch loop may carry only the query index across iterations; carrying "+ts+" into what is sent (or into the decision to send) lets state from an earlier registry snapshot leak into a later configuration (an instance that became unhealthy could survive)")
+			}
+		}
+	}
+	c.atLeast("C01.W2", "loops that issue the Health().State query", n, 1)
+}
+
+// c01ErrVerdict: the branch iff decides about instruction s by the verdict of a repository helper (ok, failed(err))
+// that gives the verdict on which s is skipped only when an error is non-nil.
+func c01ErrVerdict(iff *ssa.If, s ssa.Instruction, l *loop) bool {
+	x := iff.Block()
+	isErrVal := func(v ssa.Value) bool { return typeStr(v.Type()) == "error" }
+	for _, succ := range x.Succs {
+		// the edge on which s is skipped: the one from which s is not reached any more within this round
+		reaches := false
+		seen := map[*ssa.BasicBlock]bool{succ: true}
+		stack := []*ssa.BasicBlock{succ}
+		if l != nil && (succ == l.Head || !l.Body[succ]) {
+			stack = nil
+		}
+		for len(stack) > 0 && !reaches {
+			b := stack[len(stack)-1]
+			stack = stack[:len(stack)-1]
+			for _, in := range b.Instrs {
+				if in == s {
+					reaches = true
+				}
+			}
+			for _, sx := range b.Succs {
+				if l != nil && (sx == l.Head || !l.Body[sx]) {
+					continue
+				}
+				if !seen[sx] {
+					seen[sx] = true
+					stack = append(stack, sx)
+				}
+			}
+		}
+		if reaches {
+			continue
+		}
+		ef, ok := c01EdgeFact(x, succ)
+		if !ok {
+			return false
+		}
+		found := false
+		for _, g := range c01Implied(ef, 0) {
+			if nn, ok := nilFact(g, isErrVal); ok && nn {
+				found = true
+			}
+		}
+		return found
+	}
+	return false
 }
